@@ -1,5 +1,6 @@
 import StepModel.P21Safe
 import StepModel.P21SafeLoops
+import StepModel.P21SafeData
 import StepModel.Generated.C05Buffers
 /-! Line-protocol driver for the C05 model (same requests as `harness/h_p21safe fn`):
     `<idx> <fn> <hex bytes | -> [<int> [<int>]]`   →   `R <idx> <answer>`
@@ -42,6 +43,18 @@ def word (bytes : List UInt8) (n : Nat) (ch : UInt8) : List UInt8 :=
 
 def setAt (l : List UInt8) (i : Nat) (v : UInt8) : List UInt8 := l.set i v
 
+def upper (b : UInt8) : UInt8 := if isLower b then b - 32 else b
+
+/-- the dictionary of corpus/C05/c05a.exp as far as the function-level inputs use it -/
+def knownC05a (kw : List UInt8) : Bool :=
+  let k := kw.map upper
+  k == "POINT".toUTF8.toList || k == "KINDS".toUTF8.toList || k == "DPOINT".toUTF8.toList
+
+def showData : Out DataRes → String
+  | .ok r => s!"ok cnt={r.count} nc={r.notCreated} {showIS r.s}"
+  | .overflow i c => s!"overflow {i} {c}"
+  | .outOfFuel => "outOfFuel"
+
 def answer (fn : String) (bytes : List UInt8) (a1 a2 : Option Nat) : String :=
   let n := a1.getD 0
   let fuel := bytes.length + C05.readCommentIters + 16
@@ -66,6 +79,9 @@ def answer (fn : String) (bytes : List UInt8) (a1 a2 : Option Nat) : String :=
   | "toksep" => showLoop (fun _ => "") (readTokenSeparator C05.skipInstanceSkipsComments C05.readCommentIters fuel (IS.ofBytes bytes))
   | "findheader" =>
     showLoop (fun r => s!"found={r.sev} ") (findHeaderSectionWith C05.skipInstanceSkipsComments C05.readCommentIters C05.findHeaderGetlineN C05.findHeaderExit fuel (IS.ofBytes bytes))
+  | "readdata1" =>
+    showData (readData1 ⟨fun _ => false, knownC05a, fun _ => false⟩ id C05.skipInstanceSkipsComments C05.readCommentIters
+      C05.maxErrorCount fuel (IS.ofBytes bytes))
   | "recover" => showLoop (fun r => s!"len={r.len} ") (recoveryScan fuel (IS.ofBytes bytes) (UInt8.ofNat n))
   | "exportlist" => showLoop (fun _ => "") (exportLoop C05.exportLoopChecksStreamCreate C05.skipInstanceSkipsComments C05.readCommentIters fuel (IS.ofBytes bytes) chComma 0)
   | _ => "bad-op"
